@@ -91,6 +91,7 @@ struct Reply {
     flag: bool,  // granted / unwrapped / in-place
     value: u64,  // payload value observed
     merged: usize,
+    panicked: bool,
 }
 
 struct Worker {
@@ -98,6 +99,7 @@ struct Worker {
     rx: Receiver<Reply>,
     join: Option<std::thread::JoinHandle<()>>,
     tid: Arc<AtomicUsize>,
+    panicked: std::cell::Cell<bool>,
 }
 
 fn spawn_worker() -> Worker {
@@ -111,6 +113,16 @@ fn spawn_worker() -> Worker {
         let mut mine: Vec<BiasedRc<P>> = Vec::new();
         for c in crx {
             let mut r = Reply::default();
+            if let Cmd::Quit = c {
+                for h in mine.drain(..) {
+                    std::mem::forget(h);
+                }
+                break;
+            }
+            let mine = &mut mine;
+            let r_ref = &mut r;
+            let res = std::panic::catch_unwind(std::panic::AssertUnwindSafe(move || {
+                let r = r_ref;
             match c {
                 Cmd::New => mine.push(BiasedRc::new(P(7))),
                 Cmd::Clone => {
@@ -140,13 +152,11 @@ fn spawn_worker() -> Worker {
                 Cmd::Give(to) => to.send(mine.pop().unwrap()).unwrap(),
                 Cmd::Take(h) => mine.push(h),
                 Cmd::Peek => r.value = mine.last().map(|h| h.0).unwrap_or(0),
-                Cmd::Quit => {
-                    // leak whatever is left: the run is over
-                    for h in mine.drain(..) {
-                        std::mem::forget(h);
-                    }
-                    break;
-                }
+                Cmd::Quit => {}
+            }
+            }));
+            if res.is_err() {
+                r.panicked = true;
             }
             rtx.send(r).unwrap();
         }
@@ -154,13 +164,17 @@ fn spawn_worker() -> Worker {
     while tid.load(Ordering::SeqCst) == 0 {
         std::thread::yield_now();
     }
-    Worker { tx, rx, join: Some(join), tid }
+    Worker { tx, rx, join: Some(join), tid, panicked: std::cell::Cell::new(false) }
 }
 
 impl Worker {
     fn call(&self, c: Cmd) -> Reply {
         self.tx.send(c).unwrap();
-        self.rx.recv().unwrap()
+        let r = self.rx.recv().unwrap();
+        if r.panicked {
+            self.panicked.set(true);
+        }
+        r
     }
 }
 
@@ -295,6 +309,11 @@ impl World {
             Op::Merge(t) => {
                 self.w[t - 1].call(Cmd::Merge);
             }
+        }
+        if self.w.iter().any(|w| w.panicked.get()) {
+            self.gone = true;
+            self.failure = Some(format!("{} panicked inside steel-rc", op.show()));
+            return;
         }
         let drops = DROPS.load(Ordering::SeqCst);
         if drops > drops0 {
@@ -450,6 +469,50 @@ fn matches(o: &Obs, t: &Obs) -> bool {
     o2 == *t
 }
 
+/// Fallback when the solver's pre-state is not reachable on this tree (the tree's reachable
+/// states differ from the written invariant) or no failure follows it: breadth-first search
+/// over ALL histories of real operations (deduplicated on the observed state) for any
+/// natively observable failure.  `ignore_stale`: do not stop at the listed known finding.
+fn any_failure(max_depth: usize, ignore_stale: bool) -> Option<(Vec<Op>, String)> {
+    let mut seen: HashSet<(Option<Obs>, [u32; 3])> = HashSet::new();
+    let mut q: VecDeque<Vec<Op>> = VecDeque::new();
+    q.push_back(vec![]);
+    let mut ops = all_ops();
+    for t in 1..=3 {
+        ops.push(Op::GetMut(t));
+        ops.push(Op::TryUnwrap(t));
+    }
+    while let Some(hist) = q.pop_front() {
+        let w = replay_prefix(&hist);
+        if let Some(f) = w.failure.clone() {
+            w.finish();
+            return Some((hist, f));
+        }
+        if w.dangling_queue_entry() && !ignore_stale {
+            w.finish();
+            let mut h = hist.clone();
+            h.push(Op::Merge(1));
+            return Some((h, "explicit merge dereferences a destroyed box (queue entry outlived it)".into()));
+        }
+        let key = (w.observe(), w.copies);
+        let mut next = vec![];
+        if !w.gone && seen.insert(key) && hist.len() < max_depth {
+            for &op in &ops {
+                if w.enabled(op) && !(matches!(op, Op::Clone(_)) && w.total() >= 3) {
+                    next.push(op);
+                }
+            }
+        }
+        w.finish();
+        for op in next {
+            let mut h2 = hist.clone();
+            h2.push(op);
+            q.push_back(h2);
+        }
+    }
+    None
+}
+
 fn parse_target(s: &str) -> (Obs, Op) {
     // "m,q,n,b,s,h1,h2,h3,iq;op@t"
     let (st, op) = s.split_once(';').unwrap();
@@ -474,6 +537,8 @@ fn search() {
     let (target, op) = parse_target(&t);
     let depth: usize = std::env::var("VERIF_RC_DEPTH").ok().and_then(|x| x.parse().ok()).unwrap_or(14);
     let cap = target.h.iter().sum::<u32>().max(3) + 1;
+    let ignore_stale = std::env::var("VERIF_RC_IGNORE_STALE").is_ok();
+    let mut found = false;
     match reach(&target, depth, cap) {
         None => println!("UNREACHED: no history of <= {} real operations reaches {:?}", depth, target),
         Some(mut hist) => {
@@ -483,9 +548,18 @@ fn search() {
                 Some((h, why)) => {
                     println!("HISTORY: {}", show_hist(&h));
                     println!("EXPECTED: {}", why);
+                    found = true;
                 }
                 None => println!("NOFAILURE: pre-state reached and operation applied, no observable failure within 3 further operations"),
             }
+        }
+    }
+    if !found {
+        let d: usize = std::env::var("VERIF_RC_ANY_DEPTH").ok().and_then(|x| x.parse().ok()).unwrap_or(9);
+        if let Some((h, why)) = any_failure(d, ignore_stale) {
+            println!("FALLBACK: unguided search over real histories (depth <= {})", d);
+            println!("HISTORY: {}", show_hist(&h));
+            println!("EXPECTED: {}", why);
         }
     }
 }
